@@ -161,6 +161,21 @@ Section Inv.
     rewrite (adapter_encrypt_ne k iv _ Hne2), (zero_pad_aligned _ Hm).
     rewrite (adapter_encrypt_ne k iv _ Hne) in H. exact H.
   Qed.
+
+  Theorem adapter_mac_len k iv d m : d <> [] -> adapter_mac E k iv d = Ok m -> blen m = 16.
+  Proof.
+    intros Hne H. unfold adapter_mac in H.
+    destruct (adapter_encrypt E k iv d) as [c|] eqn:Ec; cbn [bind] in H; [|discriminate].
+    inversion H; subst m. clear H.
+    destruct (adapter_decrypt_encrypt k iv d c Ec) as [_ Hl].
+    destruct (zero_pad_len d) as [Hm Hle].
+    assert (Hd : 1 <= blen d).
+    { destruct d; [contradiction|]. rewrite blen_cons. lia. }
+    assert (H16 : 16 <= blen c).
+    { rewrite Hl. pose proof (N.div_mod (blen (zero_pad d)) 16 ltac:(lia)) as Hdm.
+      rewrite Hm in Hdm. destruct (blen (zero_pad d) / 16) eqn:Eq; lia. }
+    unfold lastN. rewrite dropN_blen. lia.
+  Qed.
 End Inv.
 
 (* the toy cipher satisfies the hypotheses (non-vacuity of the section) *)
